@@ -1332,3 +1332,62 @@ _peer_trust = ["go-diameter (state machine, mux locking, connection teardown) is
                "real-time scenarios: delays keep 1.5 s clear of the 5 s timeout; the exact race is the model's business"]
 PROPS["C18"] = dict(lean=["ChfVerif.Props.C18"], explore=explore_c18, gen=[gen_table("diamclient", "DiamClient.lean")], trusted=_peer_trust)
 PROPS["C19"] = dict(lean=["ChfVerif.Props.C19"], explore=explore_c19, gen=[gen_table("diamclient", "DiamClient.lean")], trusted=_peer_trust)
+
+
+# ------------------------------------------------------------------ C11  (no crash, no wedge)
+
+def explore_c11(ctx, res, replay_ops=None):
+    n = n_for(ctx, 40, 400)
+    ops = replay_ops if replay_ops is not None else core.harness_gen(ctx.harness, "http", ctx.seed, n, ctx.tier, ())
+    impl = core.harness_run_parallel(ctx.harness, "http", ops, 14)
+    for op, im in zip(ops, impl):
+        t = op.split(" ")
+        kind = t[2] if len(t) > 2 else "?"
+        res.evaluations += 1
+        res.dist["kind:" + kind] += 1
+        if im in ("crash", "panic", "timeout") or im.startswith("panic"):
+            res.violation("oracle", "C11: the process crashed / panicked outside the router's recovery (%s)" % im[:80], [op, "# impl: " + im[:300]])
+            continue
+        if im in ("bad-op", "setup-failed"):
+            res.violation("oracle", "C11: the case could not be set up (%s)" % im, [op, "# impl: " + im])
+            continue
+        if im == "skipped":
+            res.dist["skipped-after-hangs"] += 1
+            res.evaluations -= 1
+            continue
+        d = dict(x.split("=", 1) for x in im.split(" ") if "=" in x)
+        st, fu, fu2 = d.get("st", "?"), d.get("fu", "?"), d.get("fu2", "?")
+        res.traces_validated += 1
+        res.dist["status:" + st] += 1
+        if st[:1] == "4":
+            res.nontrivial.add(op)
+        if len(res.samples) < 6 and st[:1] == "4":
+            try:
+                body = bytes.fromhex(t[3]).decode(errors="replace") if t[3] != "-" else ""
+            except ValueError:
+                body = "?"
+            res.sample({"kind": kind, "body": body[:160], "answer": im})
+        if st == "hang":
+            res.violation("oracle", "C11: the request was not answered within 40 s", [op, "# impl: " + im])
+        elif st[:1] == "5":
+            res.violation("oracle", "C11: the request was answered %s (handler panic or server error) instead of a 4xx problem description" % st,
+                          [op, "# impl: " + im])
+        elif st[:1] not in ("2", "3", "4"):
+            res.violation("oracle", "C11: unexpected status %s" % st, [op, "# impl: " + im])
+        if fu == "hang" or fu2 == "hang":
+            res.violation("oracle", "C11: after the request a well-formed request for the same subscriber was not answered within 4 s (subscriber blocked)",
+                          [op, "# impl: " + im])
+        elif fu[:1] == "5" or fu2[:1] == "5":
+            res.violation("oracle", "C11: the follow-up request was answered %s/%s" % (fu, fu2), [op, "# impl: " + im])
+    res.rule = ("raw requests through the real router: a full ChargingDataRequest (all optional blocks present) with every single member "
+                "removed / null / {} / emptied, pairs of members removed (all pairs in thorough), random multi-member removals, 21 odd "
+                "subscriber identifiers, 25 MCC/MNC shapes, 13 bodies that are not a request object, 9 session references, 17 recharging "
+                "path parameters - as create, update and release; each followed by a well-formed online update and a release of the "
+                "same subscriber under a 4 s deadline. Oracle: status 2xx/3xx/4xx (never 5xx, never a hang), follow-ups answered in time "
+                "and not 5xx. non-trivial = request answered 4xx")
+
+
+PROPS["C11"] = dict(lean=["ChfVerif.Props.C11"], explore=explore_c11, gen=[gen_table("locksites", "LockSites.lean")],
+                    trusted=["gin's recovery middleware (a handler panic becomes a 500 and the process goes on) is modelled",
+                             "the go/ast lock-site extractor harness/cmd/locksites.go; 'calls = 0' between Lock and the deferred unlock is syntactic",
+                             "the status half is proved for the charging model's inputs only and explored for raw bodies (partial)"])
